@@ -140,19 +140,19 @@ def isDuration (t : String) : Bool :=
 
 /-- the wrapper argument-skipping loop: what remains is the inner command.  `fwa.flags` are the options of
     this wrapper whose argument is a separate word (`_WRAPPER_FLAGS_WITH_ARG[base]`), `fwa.duration` says
-    the wrapper takes a DURATION (`timeout`); the flag says "the next token is such an argument" (`j += 2`) -/
-def skipWrapperAux (fwa : WrapOpts) : Bool → List String → List String
-  | _, [] => []
-  | true, _ :: ts => skipWrapperAux fwa false ts
-  | false, t :: ts =>
-    if Py.isDigitStr t || Py.isDigitStr (Py.removeChar t '.') then skipWrapperAux fwa false ts
-    else if fwa.duration && isDuration t then skipWrapperAux fwa false ts
-    else if fwa.flags.contains t then skipWrapperAux fwa true ts
-    else if Py.startsWith t "-" && t != "--" then skipWrapperAux fwa false ts
+    the wrapper takes a DURATION (`timeout`): one number, with or without a unit, is then skipped (`seen_duration`);
+    the first flag says "the next token is such an argument" (`j += 2`), the second "the duration is still to come" -/
+def skipWrapperAux (fwa : WrapOpts) : Bool → Bool → List String → List String
+  | _, _, [] => []
+  | true, dur, _ :: ts => skipWrapperAux fwa false dur ts
+  | false, dur, t :: ts =>
+    if dur && (Py.isDigitStr t || Py.isDigitStr (Py.removeChar t '.') || isDuration t) then skipWrapperAux fwa false false ts
+    else if fwa.flags.contains t then skipWrapperAux fwa true dur ts
+    else if Py.startsWith t "-" && t != "--" then skipWrapperAux fwa false dur ts
     else if t == "--" then ts
     else t :: ts
 
-def skipWrapperArgs (fwa : WrapOpts) (l : List String) : List String := skipWrapperAux fwa false l
+def skipWrapperArgs (fwa : WrapOpts) (l : List String) : List String := skipWrapperAux fwa false fwa.duration l
 
 def matchMsg (m : Match) : String := Py.orElse m.message m.pattern
 
